@@ -190,10 +190,6 @@ func (fr *Frame) loopWrites(li *loopInfo) (hs map[string]bool, all bool) {
 						hs[h] = true
 					}
 				}
-			case *ssa.Convert, *ssa.MakeSlice, *ssa.Slice, *ssa.Alloc, *ssa.MakeMap:
-				// fresh allocations write heaps at fresh refs only; handled as ordinary updates:
-				// to stay sound we include the heaps they touch
-				fe.heapsOfAllocLike(in, hs)
 			}
 		}
 	}
@@ -519,7 +515,7 @@ func (fr *Frame) instr(b *ssa.BasicBlock, in ssa.Instruction, st *State) *Exit {
 		T := x.Type().Underlying().(*types.Pointer).Elem()
 		r := fe.newRef(fr.name(x))
 		fr.vals[x] = Term{r, SInt, x.Type()}
-		fe.storeRef(st, r, T, fe.zeroOf(T))
+		fe.initRef(st, r, T, fe.zeroOf(T))
 		if !fe.escapes(x) {
 			fe.protected[r] = T
 		}
@@ -649,10 +645,10 @@ func (fr *Frame) instr(b *ssa.BasicBlock, in ssa.Instruction, st *State) *Exit {
 			z := fe.fresh("zs")
 			fe.declConst(z, SString)
 			fe.assume(fmt.Sprintf("(= (str.len %s) %s)", z, c))
-			fe.hset(st, h, fmt.Sprintf("(store %s %s %s)", fe.hget(st, h), r, z))
+			fe.hinit(st, h, r, z)
 		} else {
 			es := fe.sorts.SortOf(el)
-			fe.hset(st, h, fmt.Sprintf("(store %s %s ((as const (Array Int %s)) %s))", fe.hget(st, h), r, es, fe.zeroOf(el)))
+			fe.hinit(st, h, r, fmt.Sprintf("((as const (Array Int %s)) %s)", es, fe.zeroOf(el)))
 		}
 		fr.setVal(x, fmt.Sprintf("(mk_slice %s 0 %s %s)", r, l, c))
 	case *ssa.MakeMap:
@@ -660,8 +656,8 @@ func (fr *Frame) instr(b *ssa.BasicBlock, in ssa.Instruction, st *State) *Exit {
 		m := x.Type().Underlying().(*types.Map)
 		d, _ := fe.mapHeaps(m)
 		ks := fe.sorts.SortOf(m.Key())
-		fe.hset(st, d, fmt.Sprintf("(store %s %s ((as const (Array %s Bool)) false))", fe.hget(st, d), r, ks))
-		fe.hset(st, "HMlen", fmt.Sprintf("(store %s %s 0)", fe.hget(st, "HMlen"), r))
+		fe.hinit(st, d, r, fmt.Sprintf("((as const (Array %s Bool)) false)", ks))
+		fe.hinit(st, "HMlen", r, "0")
 		fr.vals[x] = Term{r, SInt, x.Type()}
 	case *ssa.MakeChan:
 		r := fe.newRef(fr.name(x))
@@ -1060,7 +1056,7 @@ func (fr *Frame) convert(x *ssa.Convert, st *State) {
 	case fk == SString && tk == SSlice && isByteSlice(to):
 		r := fe.newRef(fr.name(x) + "_b")
 		fe.heapDecl("HB", "(Array Int String)")
-		fe.hset(st, "HB", fmt.Sprintf("(store %s %s %s)", fe.hget(st, "HB"), r, src.S))
+		fe.hinit(st, "HB", r, src.S)
 		fr.setVal(x, fmt.Sprintf("(mk_slice %s 0 (str.len %s) (str.len %s))", r, src.S, src.S))
 	case fk == SSlice && tk == SString && isByteSlice(from):
 		fe.heapDecl("HB", "(Array Int String)")
